@@ -117,6 +117,38 @@ pub fn generate(out: &mut Out, rng: &Prng, thorough: bool) {
                         out.oracle("C06", "parent-with-own-clock-identity", &format!("master bearing the instance's own clock identity selected at BMCA {now}"));
                     }
                 }
+                // sufficiency: the best master (0), valid, with two distinct accepted Announces inside the
+                // window (by an independent replay of the sequence-number rule) must be the parent
+                if steps_of[0] < 255 && !own_identity_master {
+                    let mut last_acc: Option<u16> = None;
+                    let mut accepted: Vec<(u32, u16)> = Vec::new();
+                    for r in &hist[0].receipts {
+                        let ok = match last_acc {
+                            None => true,
+                            Some(l) => r.1.wrapping_sub(l) < 32767,
+                        };
+                        if ok {
+                            if accepted.len() == 8 {
+                                accepted.remove(0);
+                            }
+                            accepted.push((r.0, r.1));
+                            last_acc = Some(r.1);
+                        }
+                        // records older than the window are purged; the staleness reference is the newest *stored* record
+                        accepted.retain(|a| r.0 - a.0 < window);
+                        if accepted.is_empty() {
+                            last_acc = None;
+                        }
+                    }
+                    // strictly inside the window at this run, with one interval of slack for the run's own ageing
+                    let inside: Vec<&(u32, u16)> = accepted.iter().filter(|a| now - a.0 + runs_per_interval < window).collect();
+                    let mut d: Vec<u16> = inside.iter().map(|a| a.1).collect();
+                    d.sort();
+                    d.dedup();
+                    if d.len() >= 2 && slave_of != Some(0) {
+                        out.oracle("C06", "qualified-master-not-selected", &format!("best master has {} distinct accepted Announces well inside the window at BMCA {now} but the port is {st} (parent {parent}); receipts (tick, seq): {:?}", d.len(), hist[0].receipts.iter().map(|r| (r.0, r.1)).collect::<Vec<_>>()));
+                    }
+                }
                 // silence: nothing from the selected master for window + 1 runs => not its slave any more
                 if let Some(mi) = was_slave_of {
                     let last = hist[mi].receipts.iter().map(|r| r.0).max().unwrap_or(0);
